@@ -305,6 +305,20 @@ class MTVRP(Adapter):
     def family(self, tier, seed=0):
         return build(tier, seed)
 
+    def checker_candidates(self, fam, sols, tier, seed=0):
+        """the generic candidates (feasible solutions, single-fault corruptions, all short
+        sequences of a few instances), thinned out for the thorough tier: the checker is run
+        once per candidate"""
+        cands = super().checker_candidates(fam, sols, tier, seed)
+        if tier == "quick":
+            return cands
+        rnd = random.Random(seed)
+        brute = [c for c in cands if c["why"] == "all-seq"]
+        rest = [c for c in cands if c["why"] != "all-seq"]
+        rnd.shuffle(brute)
+        rnd.shuffle(rest)
+        return rest[:36000] + brute[:12000]
+
     def group_key(self, inst):
         return (inst["N"],)            # all variants share one (mixed) batch, as in multi-task training
 
